@@ -9,7 +9,7 @@ Python builtins is fixed by coq/Gen/PyLib.v (plus Coq's String/N/Z/List and Base
 
 Subset: module-level functions and static/class/instance methods with positional parameters
 (defaults allowed); `return`, `if/elif/else`, assignments to local names (rebinding = shadowing
-`let`), `l[-1] = e`, `l.append(e)`, `l.pop()`, `del l[-1]` on locally created lists that are never aliased;
+`let`), `l[-1] = e`, `l.append(e)`, `l.pop()`, `del l[-1]`, declared mutator methods (`h.update(x)`) on locally created lists that are never aliased;
 `and/or/not` (truth value of str/list/int where only the truth is used), comparisons (by inferred type), `in`/`not in` on literal tuples and on strings,
 `is None`, `+ - *` on ints, `+` on str/list, str methods startswith/endswith/find/split/join/
 strip/lstrip/rstrip, split/rsplit(sep, 1), partition/rpartition, `len`, `str`, slices `s[a:b]`, constant indices, f-strings of simple
@@ -20,7 +20,10 @@ functions of the same module, declared casts (identity) and declared opaque func
 (become parameters), declared extern pure functions (mapped to a Coq function).  Functions that
 `raise X(msg)` / `assert c` (statements in sequence, not inside loops or try) return
 `(string * string) + T` (`inl (exception class name, message)`; a procedure has T = unit); a call
-of such a function as a statement or `x = f(..)` is a monadic bind; a nested
+of such a function as a statement or `x = f(..)` is a monadic bind; the stream read loop
+(`while True: c = d.read(n); if not c: break; h.update(c)`, the walrus and the `iter(lambda..., b"")`
+forms) becomes `py_read_loop`; `try: x = ..D[k].. except KeyError: raise ..` on a declared dict is a
+lookup match; per-function `rewrites` map an exact statement text to subset source.  A nested
 `def err(msg: str): return SomeError(<message>)` is allowed as a builder used in `raise err(..)`.  `if x is None` / `is not None`
 on an Optional name or attribute chain becomes a `match` that narrows x in the Some branch (also
 inside `x is None or ...` / `x is not None and ...`).  `super().m(...)` resolves through the
@@ -44,7 +47,7 @@ Prop return Set then Type using where with andb orb negb true false Some None fs
 """.split())
 
 
-BUILTINS = ("any", "all", "len", "str", "map", "list")
+BUILTINS = ("any", "all", "len", "str", "map", "list", "filter")
 
 
 class Refuse(Exception):
@@ -70,6 +73,8 @@ def coq_type(t) -> str:
         return "string"
     if t in (BOOL, Z, N, "unit"):
         return t
+    if t in ("bytes", "stream"):
+        return "(list ascii)" if t == "bytes" else "py_stream"
     k = t[0]
     if k == "result":
         return f"((string * string) + {coq_type(t[1])})"
@@ -103,6 +108,7 @@ class Tr:
                 self._index(st, None)
         self.nfresh = 0
         self.bind_node = None        # the raising call currently translated in statement position
+        self.with_binders: set = set()
         self._raising: Dict[str, bool] = {}
         self.out: Dict[str, str] = {}            # coq name -> definition text (in order)
         self.sigs: Dict[str, Any] = {}           # python qualname -> (coq name, param list, ret type)
@@ -133,7 +139,7 @@ class Tr:
         if isinstance(a, ast.Constant) and isinstance(a.value, str):
             return self.ann(a.value)
         if isinstance(a, ast.Name):
-            if a.id in ("str", "bool", "N", "Z"):
+            if a.id in ("str", "bool", "N", "Z", "bytes", "stream"):
                 return a.id
             if a.id == "int":
                 return Z
@@ -158,6 +164,8 @@ class Tr:
 
     def dflt(self, t, node) -> str:
         d = {STR: '""', Z: "0%Z", N: "0%N", BOOL: "false"}.get(t if isinstance(t, str) else None)
+        if d is None and t[0] == "rec":
+            d = self.spec["records"][t[1]].get("default")
         if d is None:
             self.no(node, f"no default element for partial access at type {coq_type(t)}")
         return d
@@ -203,7 +211,7 @@ class Tr:
         return name
 
     def coq_fname(self, qual: str) -> str:
-        for f in self.spec.get("functions", []):
+        for f in self.spec.get("functions", []) + self.spec.get("helpers", []):
             if f["py"] == qual and f.get("coq"):
                 return f["coq"]
         parts = []
@@ -264,7 +272,8 @@ class Tr:
         if qual in self._raising:
             return self._raising[qual]
         fn, cls, _ = self.funcs[qual]
-        r = False
+        fsp = next((f for f in self.spec.get("functions", []) + self.spec.get("helpers", []) if f["py"] == qual), {})
+        r = any("raise " in rw["to"] for rw in fsp.get("rewrites", []))
         for n in walk(fn):
             if isinstance(n, (ast.Raise, ast.Assert)):
                 r = True
@@ -311,7 +320,7 @@ class Tr:
             self.no(node or self.funcs[qual][0], f"recursive function {qual}")
         fn, cls, mpath = self.funcs[qual]
         saved_path, self.path = self.path, mpath
-        fspec = next((f for f in self.spec.get("functions", []) if f["py"] == qual), {})
+        fspec = next((f for f in self.spec.get("functions", []) + self.spec.get("helpers", []) if f["py"] == qual), {})
         a = fn.args
         if a.vararg or a.kwarg or a.kwonlyargs or a.posonlyargs:
             self.no(fn, "only plain positional parameters are supported")
@@ -341,7 +350,18 @@ class Tr:
         env.ret = ret
         self.busy.append(qual)
         body = [s for s in fn.body if not (isinstance(s, ast.Expr) and isinstance(s.value, ast.Constant) and isinstance(s.value.value, str))]
-        env.raises = self.raising(qual)
+        for rw in fspec.get("rewrites", []):       # declared statement models: exact source text -> subset source
+            hits = [i for i, st in enumerate(body) if ast.unparse(st) == rw["from"]]
+            if len(hits) != 1:
+                self.no(fn, f"declared statement model does not apply exactly once (source changed?): {rw['from']!r}")
+            repl = ast.parse(rw["to"]).body
+            for r_ in repl:
+                for n_ in ast.walk(r_):
+                    ast.copy_location(n_, body[hits[0]])
+            body[hits[0]:hits[0] + 1] = repl
+            self.res.assumed.append(f"{qual}: statement {rw['from']!r} read as {rw['to']!r}: {rw.get('why', '')}")
+        fn_body_node = ast.Module(body=body, type_ignores=[])
+        env.raises = self.raising(qual) or any(isinstance(n, (ast.Raise, ast.Assert)) for n in walk(fn_body_node))
         env.proc = not any(isinstance(n, ast.Return) and n.value is not None for s in body for n in walk(s, False))
         if env.proc and env.raises:
             env.ret = "unit"
@@ -359,6 +379,9 @@ class Tr:
             self.res.assumed.append(f"{qual}: opaque function {oname}() is a parameter py_{oname}")
         abst += [t[1] for _, t, _ in params if t[0] == "abs"]
         extra = "".join(f" ({a} : Type)" for a in dict.fromkeys(abst)) + extra
+        if fspec.get("binders"):
+            extra = " " + fspec["binders"] + extra
+            self.with_binders.add(qual)
         rtype = ("result", env.ret) if env.raises else env.ret
         text = f"(* {self.path}:{fn.lineno} {qual} *)\nDefinition {name}{extra}{binders} : {coq_type(rtype)} :=\n  {term}.\n"
         self.out[name] = text
@@ -407,6 +430,7 @@ class Tr:
                 self.no(s, "return inside a branch that only assigns")
             self.bind_node = s.value if self.raising_call(s.value, env) else None
             term, t = self.expr(s.value, env.allow_bare() if isinstance(s.value, ast.Name) else env, env.ret)
+            term, t = self.to_want(term, t, env.ret)
             if env.ret is None:
                 env.ret = t
             elif not same(env.ret, t):
@@ -462,6 +486,20 @@ class Tr:
                 self.no(s, "result of a raising call must be bound to one name")
             ev = self.fresh("exc")
             return f"match {term} with\n  | inl {ev} => inl {ev}\n  | inr {pat} => {self.block(rest, env, final)}\n  end"
+        if isinstance(s, ast.If) and isinstance(s.test, ast.NamedExpr) and isinstance(s.test.target, ast.Name):
+            # `if x := e:` is `x = e` followed by `if x:`
+            asg = ast.copy_location(ast.Assign([ast.Name(s.test.target.id, ast.Store())], s.test.value), s)
+            tst = ast.copy_location(ast.If(ast.copy_location(ast.Name(s.test.target.id, ast.Load()), s), s.body, s.orelse), s)
+            return self.block([asg, tst] + rest, env, final)
+        if isinstance(s, ast.Try):
+            return self.try_lookup(s, rest, env, final)
+        if isinstance(s, ast.While) or (isinstance(s, ast.For) and isinstance(s.iter, ast.Call)
+                                        and isinstance(s.iter.func, ast.Name) and s.iter.func.id == "iter"):
+            bind = self.read_loop(s, env)
+            return f"let {bind[0]} := {bind[1]} in\n  {self.block(rest, env, final)}"
+        if isinstance(s, ast.For):
+            bind = self.for_accumulate(s, env)
+            return f"let {bind[0]} := {bind[1]} in\n  {self.block(rest, env, final)}"
         if isinstance(s, ast.If) and self.none_test(s.test, env):
             subj, is_none = self.none_test(s.test, env)
             term, t = self.expr(subj, env)
@@ -502,6 +540,151 @@ class Tr:
             return f"if {c} then {t1}\n  else {t2}"
         bind = self.simple(s, env)
         return f"let {bind[0]} := {bind[1]} in\n  {self.block(rest, env, final)}"
+
+    def for_accumulate(self, s, env):
+        """`for x in xs: [if c:] acc.append(e)` on a local list acc = acc ++ map (filter xs)."""
+        body = s.body
+        test = None
+        if len(body) == 1 and isinstance(body[0], ast.If) and not body[0].orelse:
+            test, body = body[0].test, body[0].body
+        ok = (not s.orelse and isinstance(s.target, ast.Name) and len(body) == 1 and isinstance(body[0], ast.Expr)
+              and isinstance(body[0].value, ast.Call) and isinstance(body[0].value.func, ast.Attribute)
+              and body[0].value.func.attr == "append" and isinstance(body[0].value.func.value, ast.Name)
+              and len(body[0].value.args) == 1 and not body[0].value.keywords)
+        if not ok:
+            self.no(s, "for loop (only `for x in xs: [if c:] acc.append(e)` on a local list)")
+        acc, x, elt = body[0].value.func.value.id, s.target.id, body[0].value.args[0]
+        used = {n.id for part in ([test] if test is not None else []) + [elt, s.iter] for n in ast.walk(part) if isinstance(n, ast.Name)}
+        t = env.vars.get(acc)
+        if not t or t[0] != "list" or acc in used or acc == x or x in env.vars:
+            self.no(s, "for loop: the accumulator must be a local list not read in the loop, the loop variable a new name")
+        it, ity = self.iterable(s.iter, env)
+        e2 = env.fork()
+        e2.vars[x] = ity[1]
+        xv = self.ident(x, s)
+        if test is not None:
+            it = f"(List.filter (fun {xv} => {self.cond(test, e2)}) {it})"
+        term, et = self.expr(elt, e2, t[1])
+        if t[1] is None:
+            env.vars[acc] = t = ("list", et)
+        if not same(et, t[1]):
+            self.no(s, "element type changes")
+        if not (isinstance(elt, ast.Name) and elt.id == x):
+            it = f"(List.map (fun {xv} => {term}) {it})"
+        name = self.ident(acc, s)          # not env.name: the accumulator may still have had no element type
+        return name, f"({name} ++ {it})%list"
+
+    def mutate(self, s, v, mut, args, env, argenv, target=None):
+        fn, ptypes = mut
+        if len(args) != len(ptypes):
+            self.no(s, f"arguments of the declared mutator {fn}")
+        terms = []
+        for a, pt in zip(args, ptypes):
+            term, t = self.expr(a, argenv, self.ann(pt))
+            if not same(t, self.ann(pt)):
+                self.no(a, f"argument of type {coq_type(t)} for the declared mutator {fn}")
+            terms.append(term)
+        cur = target or self.expr(ast.copy_location(ast.Name(v, ast.Load()), s), env.allow_bare())[0]
+        env.unnarrow(v)
+        return f"({fn} {cur} {' '.join(terms)})"
+
+    def read_loop(self, s, env):
+        """The stream read loop (three spellings) -> py_read_loop.  Anything else is refused."""
+        def read_call(x):
+            if isinstance(x, ast.Call) and isinstance(x.func, ast.Attribute) and x.func.attr == "read" \
+                    and isinstance(x.func.value, ast.Name) and len(x.args) == 1 and not x.keywords:
+                return x.func.value.id, x.args[0]
+            return None
+        c = d = size = None
+        if isinstance(s, ast.While) and not s.orelse and isinstance(s.test, ast.Constant) and s.test.value is True \
+                and len(s.body) >= 2 and isinstance(s.body[0], ast.Assign) and len(s.body[0].targets) == 1 \
+                and isinstance(s.body[0].targets[0], ast.Name) and read_call(s.body[0].value) \
+                and isinstance(s.body[1], ast.If) and not s.body[1].orelse and len(s.body[1].body) == 1 \
+                and isinstance(s.body[1].body[0], ast.Break) and isinstance(s.body[1].test, ast.UnaryOp) \
+                and isinstance(s.body[1].test.op, ast.Not) and isinstance(s.body[1].test.operand, ast.Name) \
+                and s.body[1].test.operand.id == s.body[0].targets[0].id:
+            c, (d, size), updates = s.body[0].targets[0].id, read_call(s.body[0].value), s.body[2:]
+        elif isinstance(s, ast.While) and not s.orelse and isinstance(s.test, ast.NamedExpr) \
+                and isinstance(s.test.target, ast.Name) and read_call(s.test.value):
+            c, (d, size), updates = s.test.target.id, read_call(s.test.value), s.body
+        elif isinstance(s, ast.For) and not s.orelse and isinstance(s.target, ast.Name) and isinstance(s.iter, ast.Call) \
+                and isinstance(s.iter.func, ast.Name) and s.iter.func.id == "iter" and len(s.iter.args) == 2 \
+                and not s.iter.keywords and isinstance(s.iter.args[0], ast.Lambda) and not s.iter.args[0].args.args \
+                and read_call(s.iter.args[0].body) and isinstance(s.iter.args[1], ast.Constant) and s.iter.args[1].value == b"":
+            c, (d, size), updates = s.target.id, read_call(s.iter.args[0].body), s.body
+        if c is None or "iter" in self.funcs or env.vars.get(d) != "stream" or c in env.vars:
+            self.no(s, "loop (only `for x in xs: [if c:] acc.append(e)` and the stream read loop "
+                       "`while True: c = d.read(n); if not c: break; h.update(..)` / `while c := d.read(n)` / "
+                       "`for c in iter(lambda: d.read(n), b'')` are supported)")
+        hs = set()
+        for u in updates:
+            if not (isinstance(u, ast.Expr) and isinstance(u.value, ast.Call) and isinstance(u.value.func, ast.Attribute)
+                    and isinstance(u.value.func.value, ast.Name) and not u.value.keywords):
+                self.no(u, "statement in a read loop other than a declared mutator call on the accumulator")
+            hs.add(u.value.func.value.id)
+        if len(hs) != 1:
+            self.no(s, "a read loop must update exactly one accumulator object")
+        h = hs.pop()
+        ht = env.narrow.get(h, (None, env.vars.get(h)))[1]
+        if not ht or ht[0] != "rec" or h in env.params:
+            self.no(s, "the accumulator of a read loop must be a local object of a declared record type")
+        names = lambda x: {n.id for n in ast.walk(x) if isinstance(n, ast.Name)}     # noqa: E731
+        if {c, d} & names(size) or any(d in names(a) or h in names(a) for u in updates for a in u.value.args):
+            self.no(s, "read loop: the size may not depend on the chunk or the stream, the updates not on the stream")
+        init = self.expr(ast.copy_location(ast.Name(h, ast.Load()), s), env)[0]
+        e3 = env.fork()
+        e3.unnarrow(h)
+        e3.vars[h] = ht
+        hv, cv, dv = self.ident(h, s), self.ident(c, s), env.name(d)
+        sz, szt = self.expr(size, e3)
+        sz = f"(Z.of_N {sz})" if szt == N else sz
+        if szt not in (Z, N):
+            self.no(size, "read size is not an int")
+        e3.vars[c] = "bytes"
+        step = hv
+        for u in updates:
+            mut = self.spec["records"][ht[1]].get("mutators", {}).get(u.value.func.attr)
+            if not mut:
+                self.no(u, f".{u.value.func.attr}() is not a declared mutator of {ht[1]}")
+            step = self.mutate(u, h, mut, u.value.args, e3, e3, target=step)
+        env.unnarrow(h)
+        env.vars[h] = ht
+        note = f"{self.path}:{s.lineno}: the stream {d!r} is consumed by the read loop; its final position is not part of the result"
+        if note not in self.res.assumed:
+            self.res.assumed.append(note)
+        return f"'({hv}, {dv})", f"(py_read_loop (fun {hv} => {sz}) (fun {hv} {cv} => {step}) {dv} {init})"
+
+    def try_lookup(self, s, rest, env, final):
+        """`try: <assignments with one D[k]> except KeyError: <... raise>` for a declared dict D."""
+        dicts = self.spec.get("dicts", {})
+        h = s.handlers[0] if len(s.handlers) == 1 else None
+        subs = [n for st in s.body for n in walk(st, False) if isinstance(n, ast.Subscript)
+                and isinstance(n.value, ast.Name) and n.value.id in dicts and isinstance(n.ctx, ast.Load)]
+        ok = (h is not None and isinstance(h.type, ast.Name) and h.type.id == "KeyError" and h.name is None
+              and not s.orelse and not s.finalbody and always_returns(h.body) and len(subs) == 1
+              and all(isinstance(st, ast.Assign) and len(st.targets) == 1 and isinstance(st.targets[0], ast.Name) for st in s.body))
+        if ok:      # nothing else in the body may raise KeyError: only calls of the looked-up value itself
+            for st in s.body:
+                for n in walk(st, False):
+                    if isinstance(n, ast.Call) and n.func is not subs[0]:
+                        ok = False
+        if not ok:
+            self.no(s, "try statement (only `try: x = ..D[k].. except KeyError: ... raise` on a declared dict D)")
+        d = dicts[subs[0].value.id]
+        key, kt = self.expr(subs[0].slice, env)
+        if not same(kt, self.ann(d["key"])):
+            self.no(s, "key type of the declared dict")
+        v = self.fresh(subs[0].value.id)
+        e1, e2 = env.fork(), env.fork()
+        e1.narrow[ast.unparse(subs[0])] = (v, self.ann(d["value"]))
+        t1 = self.block(s.body + rest, e1, final)
+        e2.ret = e1.ret
+        t2 = self.block(h.body, e2, final)
+        env.ret = e2.ret
+        note = f"{subs[0].value.id}[k] read as the Coq function {d['coq']} (None = KeyError): {d.get('why', '')}"
+        if note not in self.res.assumed:
+            self.res.assumed.append(note)
+        return f"match ({d['coq']} {key}) with\n  | Some {v} => {t1}\n  | None => {t2}\n  end"
 
     def local_raiser(self, fn, env):
         """`def err(msg: str): return SomeError(<str expr>)` inside a function: allowed only as a
@@ -547,7 +730,9 @@ class Tr:
         if isinstance(s, ast.Assign) and len(s.targets) == 1:
             tg = s.targets[0]
             if isinstance(tg, ast.Name):
-                term, t = self.expr(s.value, env)
+                env.late_ok = tg.id in env.mutated and isinstance(s.value, ast.List) and not s.value.elts
+                term, t = self.expr(s.value, env)       # `acc = []`: element type fixed by the first append
+                env.late_ok = False
                 if tg.id in env.mutated and not fresh_list(s.value):
                     self.no(s, f"{tg.id!r} is mutated later but is not bound to a freshly created list here")
                 env.vars[tg.id] = t
@@ -588,9 +773,16 @@ class Tr:
             t = env.vars.get(v)
             if t and t[0] == "list" and meth == "append" and len(args) == 1:
                 term, et = self.expr(args[0], env, t[1])
+                if t[1] is None:
+                    env.vars[v] = t = ("list", et)
                 if not same(et, t[1]):
                     self.no(s, "element type changes")
                 return env.name(v), f"({env.name(v)} ++ [{term}])%list"
+            mut = self.spec["records"][t[1]].get("mutators", {}).get(meth) if t and t[0] == "rec" else None
+            if mut:       # declared state-changing method of a local object: h.update(x) is h := upd h x
+                if v in env.params:
+                    self.no(s, f"parameter {v!r} is mutated (side effect visible to the caller)")
+                return env.name(v), self.mutate(s, v, mut, args, env, env)
             if t and t[0] == "list" and meth == "pop" and not args:
                 self.res.partial.append(f"{self.path}:{s.lineno}: {v}.pop() (IndexError on an empty list is not modelled)")
                 return env.name(v), f"(List.removelast {env.name(v)})"
@@ -606,7 +798,7 @@ class Tr:
             return f'(negb (String.eqb {term} ""))'
         if t in (Z, N):
             return f"(negb ({t}.eqb {term} 0%{t}))"
-        if t[0] == "list":
+        if t[0] == "list" or t == "bytes":
             return f"(negb (py_is_nil {term}))"
         self.no(e, f"truth value of {coq_type(t)}")
 
@@ -618,7 +810,7 @@ class Tr:
 
     # ---------------------------------------------------------------- expressions
     def expr(self, e, env: "Env", want=None) -> Tuple[str, Any]:
-        if isinstance(e, (ast.Name, ast.Attribute)) and env.narrow and ast.unparse(e) in env.narrow:
+        if isinstance(e, (ast.Name, ast.Attribute, ast.Subscript)) and env.narrow and ast.unparse(e) in env.narrow:
             return env.narrow[ast.unparse(e)]
         m = getattr(self, "e_" + type(e).__name__, None)
         if m is None:
@@ -642,6 +834,8 @@ class Tr:
         self.no(e, f"literal {v!r}")
 
     def e_Name(self, e, env, want):
+        if e.id in env.vars and env.vars[e.id] == ("list", None):
+            self.no(e, f"{e.id!r} is an empty list whose element type is not known yet")
         if e.id in env.vars:
             if e.id in env.mutated and not env.bare_ok:
                 self.no(e, f"mutated list {e.id!r} used as a whole value (possible alias)")
@@ -689,6 +883,19 @@ class Tr:
                 e2.narrow[ast.unparse(nt[0])] = (v, t[1])
                 return f"(match {term} with None => {'false' if is_and else 'true'} | Some {v} => {go(values[1:], e2)} end)"
             return f"({operand(values[0], en)} {op} {go(values[1:], en)})"
+        if want != TRUTH and not is_and and len(e.values) == 2:
+            a, ta = self.expr(e.values[0], env)
+            inner = ta[1] if ta[0] == "option" else ta
+            if inner == STR or inner[0] == "list":        # value of `a or b`: a if it is truthy, else b
+                b, tb = self.expr(e.values[1], env, inner)
+                if not same(tb, inner):
+                    self.no(e, f"`or` between {coq_type(ta)} and {coq_type(tb)}")
+                truthy = (lambda v: f'(negb (String.eqb {v} ""))') if inner == STR else (lambda v: f"(negb (py_is_nil {v}))")
+                if ta[0] == "option":
+                    v = self.fresh("or")
+                    return f"(match {a} with Some {v} => if {truthy(v)} then {v} else {b} | None => {b} end)", inner
+                v = self.fresh("or")
+                return f"(let {v} := {a} in if {truthy(v)} then {v} else {b})", inner
         if not any(narrows(v, env) for v in e.values[:-1]):
             return "(" + f" {op} ".join(operand(v, env) for v in e.values) + ")", BOOL
         return go(list(e.values), env), BOOL
@@ -700,10 +907,20 @@ class Tr:
             return f"({-e.operand.value})%Z", Z
         self.no(e, "unary operator")
 
+    def to_want(self, term, t, want):
+        """A value of type T where Optional[T] is wanted is Some of it."""
+        if want is not None and want != TRUTH and want[0] == "option" and same(t, want[1]):
+            return f"(Some {term})", want
+        return term, t
+
     def e_IfExp(self, e, env, want):
         c = self.cond(e.test, env)
-        a, ta = self.expr(e.body, env, want)
-        b, tb = self.expr(e.orelse, env, ta)
+        if want is not None and want != TRUTH and want[0] == "option":
+            a, ta = self.to_want(*self.expr(e.body, env, want), want)
+            b, tb = self.to_want(*self.expr(e.orelse, env, want), want)
+        else:
+            a, ta = self.expr(e.body, env, want)
+            b, tb = self.expr(e.orelse, env, ta)
         if not same(ta, tb):
             self.no(e, "branches of conditional expression differ in type")
         return f"(if {c} then {a} else {b})", ta
@@ -816,7 +1033,7 @@ class Tr:
                 self.no(e, "heterogeneous list literal")
             et = t
             items.append(term)
-        if et is None:
+        if et is None and not env.late_ok:
             self.no(e, "empty list literal of unknown element type")
         return "[" + "; ".join(items) + "]", ("list", et)
 
@@ -928,6 +1145,13 @@ class Tr:
             note = f"{fname}: keyword arguments {[k.arg for k in e.keywords]} passed positionally in source order"
             if note not in self.res.assumed:
                 self.res.assumed.append(note)
+        elif e.keywords and fname in self.spec.get("extern", {}) and "kw" in self.spec["extern"][fname] \
+                and all(k.arg for k in e.keywords):
+            order = self.spec["extern"][fname]["kw"][len(args):]
+            given = {k.arg: k.value for k in e.keywords}
+            if sorted(given) != sorted(order) or len(given) != len(e.keywords):
+                self.no(e, f"keyword arguments of extern function {fname} (declared: {order})")
+            args += [given[k] for k in order]
         elif e.keywords:
             self.no(e, "keyword arguments")
         if any(isinstance(a, ast.Starred) for a in args):
@@ -942,6 +1166,12 @@ class Tr:
             if note not in self.res.assumed:
                 self.res.assumed.append(note)
             return f"({x['coq']} {' '.join(t for t, _ in items)})", self.ann(x["ret"])
+        if isinstance(f, ast.Subscript) or (isinstance(f, ast.Name) and (f.id in env.vars or f.id in env.narrow)):
+            term, t = self.expr(f, env)         # calling a value: only objects of a declared callable record type
+            call = self.spec["records"][t[1]].get("call") if t[0] == "rec" else None
+            if not call or args:
+                self.no(e, f"call of a value of type {coq_type(t)}")
+            return f"({call[0]} {term})", self.ann(call[1])
         tq = self.target(f, env.cls)
         if tq and isinstance(f, ast.Attribute):
             cname, ps, ret, extra, raises, kind, opq = self.function(tq, e)
@@ -955,6 +1185,12 @@ class Tr:
             return self.str_format(e, f.value.value, args, env)
         if isinstance(f, ast.Attribute):
             recv, rt = self.expr(f.value, env)
+            pycls = self.spec["records"][rt[1]].get("class") if rt[0] == "rec" else None
+            if pycls and f"{pycls}.{f.attr}" in self.funcs:       # method of a declared record's class
+                return self.call_fn(e, f"{pycls}.{f.attr}", [f.value] + args, env)
+            meth = self.spec["records"][rt[1]].get("methods", {}).get(f.attr) if rt[0] == "rec" else None
+            if meth and not args:                                 # declared pure observer: h.hexdigest()
+                return f"({meth[0]} {recv})", self.ann(meth[1])
             if rt == STR:
                 return self.str_method(e, recv, f.attr, args, env)
             self.no(e, f"method .{f.attr}() on {coq_type(rt)}")
@@ -972,6 +1208,14 @@ class Tr:
             if t[1] != BOOL:
                 self.no(e, f"{name}() over non-bool elements (truthiness)")
             return f"({'List.existsb' if name == 'any' else 'List.forallb'} (fun b => b) {it})", BOOL
+        if name == "filter" and len(args) == 2 and isinstance(args[0], ast.Lambda) and "filter" not in self.funcs:
+            la = args[0].args
+            if len(la.args) != 1 or la.defaults or la.vararg or la.kwarg or la.kwonlyargs or la.posonlyargs:
+                self.no(e, "filter with a lambda that is not `lambda x: cond`")
+            it, t = self.iterable(args[1], env)
+            e2 = env.fork()
+            e2.vars[la.args[0].arg] = t[1]
+            return f"(List.filter (fun {self.ident(la.args[0].arg, e)} => {self.cond(args[0].body, e2)}) {it})", t
         if name == "list" and len(args) == 1 and "list" not in self.funcs and "list" not in self.consts:
             term, t = self.listlike(args[0], env)
             if t[0] == "list":
@@ -1014,6 +1258,8 @@ class Tr:
     def call_fn(self, e, qual, args, env):
         """Call of a translated function; opaque parameters of the callee are passed on."""
         cname, ps, ret, extra, raises, kind, opq = self.function(qual, e)
+        if qual in self.with_binders:
+            self.no(e, f"call of {qual}, which has declared extra binders")
         if raises and e is not self.bind_node:
             self.no(e, f"call of {qual}, which can raise, inside an expression (only `f(..)`, `x = f(..)`, `return f(..)`)")
         for oname, sig in opq.items():
@@ -1072,6 +1318,7 @@ class Env:
         self.raises, self.proc = False, False
         self.narrow: Dict[str, Any] = {}
         self.raisers: Dict[str, Any] = {}
+        self.late_ok = False
 
     def unnarrow(self, name):
         for k in [k for k in self.narrow if re.search(rf"\b{re.escape(name)}\b", k)]:
